@@ -256,10 +256,88 @@ def make_edit(rng, theme, soup, scope, sel=''):
     return edit
 
 
+def run_structural(u, sig):
+    """C08's reading of the same workload: whatever the caller does to the tree between two items - detach, destroy or
+    replace the element just delivered, its parent, its next sibling, any other element; insert new ones - continuing the
+    iteration never raises (what it yields then is Beautiful Soup's business as much as soupsieve's and is not judged)."""
+    import random
+    import soupsieve as sv
+    rng = random.Random(u['seed'])
+    res = {'evals': 0, 'sigs': [], 'viol': [], 'samples': [], 'counters': {}}
+    cn = res['counters']
+    sigs = set()
+    for _ in range(u['n']):
+        theme = rng.choice(['generic', 'text', 'nth', 'state', 'lang'])
+        markup = doc_generic(rng, theme)
+        parser = rng.choice(['html.parser', 'html.parser', 'lxml', 'html5lib'])
+        for _q in range(4):
+            sel = sel_for(rng, theme) if rng.random() < .7 else rng.choice(['*', 'p', 'span', 'div *', ':not(b)', 'li, a, span'])
+            soup = bs4.BeautifulSoup(markup, parser)
+            scope = soup if rng.random() < .6 else (rng.choice(soup.find_all(['div', 'ul', 'section', 'form', 'body'])) or soup)
+            state = rng.getstate()
+            actions = []
+
+            def go():
+                it = sv.iselect(sel, scope) if rng.random() < .5 else sv.compile(sel).iselect(scope)
+                n = 0
+                for e in it:
+                    n += 1
+                    if n > 200:
+                        break
+                    r = rng.random()
+                    if r > .6:
+                        continue
+                    who = rng.choice(['self', 'self', 'self', 'parent', 'next', 'prev', 'other', 'child'])
+                    tgt = {'self': e, 'parent': e.parent, 'next': e.find_next_sibling(), 'prev': e.find_previous_sibling(),
+                           'other': rng.choice(soup.find_all(True)), 'child': e.find(True)}[who]
+                    if tgt is None or isinstance(tgt, bs4.BeautifulSoup) or tgt is scope or tgt.name in ('html',):
+                        continue
+                    act = rng.choice(['extract', 'extract', 'replace_with', 'insert_after', 'insert_before', 'wrap', 'unwrap', 'clear'])
+                    # (never decompose(): a destroyed element is no longer a Beautiful Soup tree node - its attributes are gone - and the
+                    # walk may already hold a reference to one of its children; what happens then is outside the property)
+                    actions.append((who, act))
+                    if act == 'extract':
+                        tgt.extract()
+                    elif act == 'replace_with':
+                        tgt.replace_with(soup.new_tag('span') if rng.random() < .5 else bs4.NavigableString('t'))
+                    elif act == 'insert_after' and tgt.parent is not None:
+                        tgt.insert_after(soup.new_tag(rng.choice(['p', 'span'])))
+                    elif act == 'insert_before' and tgt.parent is not None:
+                        tgt.insert_before(soup.new_tag(rng.choice(['p', 'span'])))
+                    elif act == 'wrap' and tgt.parent is not None:
+                        tgt.wrap(soup.new_tag('div'))
+                    elif act == 'unwrap' and tgt.parent is not None:
+                        tgt.unwrap()
+                    elif act == 'clear':
+                        tgt.clear()
+                return n
+            st, r = monitors.guarded_call(go)
+            cn['lazy_structural_runs'] = cn.get('lazy_structural_runs', 0) + 1
+            cn['lazy_structural_edits'] = cn.get('lazy_structural_edits', 0) + len(actions)
+            res['evals'] += len(actions) + 1
+            for a in actions:
+                sigs.add(sig('lazy-struct', a))
+            if st == 'raise' and monitors.exc_site(r) is None and not isinstance(r, RecursionError):
+                # raised by Beautiful Soup's own mutators on the caller's side (e.g. editing an already destroyed element)
+                cn['caller_side_exception'] = cn.get('caller_side_exception', 0) + 1
+                continue
+            if st == 'raise':
+                cn['VIOL'] = cn.get('VIOL', 0) + 1
+                if len(res['viol']) < 4:
+                    res['viol'].append({'what': 'iselect(%r) continued after the caller edited the tree (%s) raised %r at %s' % (
+                        sel, actions[-3:], r, monitors.exc_site(r)), 'selector': sel, 'class': sig('lazy-struct', type(r).__name__, monitors.exc_site(r)),
+                        'monitor': 'lazy-iselect-structural',
+                        'lazy': {'theme': 'structural', 'markup': markup, 'parser': parser, 'unit_seed': u['seed'], 'rng_state': repr(state)}})
+    res['sigs'] = list(sigs)
+    return res
+
+
 def run_unit(u, sig):
     """One work unit: u = {'kind': 'lazy', 'theme': ..., 'seed': ..., 'n': ...}."""
     import random
     import soupsieve as sv
+    if u['theme'] == 'structural':
+        return run_structural(u, sig)
     rng = random.Random(u['seed'])
     theme = u['theme']
     res = {'evals': 0, 'sigs': [], 'viol': [], 'samples': [], 'counters': {}}
